@@ -77,6 +77,21 @@ Theorem C13_default_write_all_eq_std : forall (F : Type) (os_write : F -> list N
     /\ (r = Ok tt -> of = Some f') /\ (r <> Ok tt -> of = None).
 Proof. exact default_write_all_eq_std_lemma. Qed.
 
+(* the message queue (AF_UNIX SOCK_SEQPACKET / SOCK_DGRAM socketpair), in closed form: an exact read is
+   served in PIECES, one message per round of the default loop.  For a queue holding the messages [ms]
+   (payload bytes < 256) the adapter returns what [msgq_exact ms (nlen b) []] computes by recursion over
+   the message list: Ok when the messages in front are non-empty until the buffer is full - the buffer
+   then holds the concatenated pieces, the excess of the last message used is discarded, the remaining
+   messages stay queued -, UnexpectedEof at an empty message, the descriptor's EAGAIN on a drained queue *)
+Theorem C13_msgq_read_exact_pieces : forall md ms b p, Forall payload_ok ms -> buf_ok b ->
+  exists st' b',
+    vm_step md KMsgQ (msgq_state p [] ms) (OReadExact b)
+      = Val ((st', arena b'), rc_unit (snd (msgq_exact ms (nlen b) [])))
+    /\ nlen b' = nlen b
+    /\ (forall ms', fst (fst (msgq_exact ms (nlen b) [])) = Some ms' ->
+          st' = msgq_state p [] ms' /\ b' = snd (fst (msgq_exact ms (nlen b) []))).
+Proof. exact msgq_read_exact_pieces_lemma. Qed.
+
 (* non-vacuity: a cursor past the end, then repositioned, read short, then an exact read that fails *)
 Example C13_nonvacuous :
   let c := {| c_mode := Debug; c_kind := KCurR;
@@ -118,6 +133,13 @@ Proof.
   - vm_compute. repeat split.
 Qed.
 
+Example C13_msgq_exact_nonvacuous :
+  msgq_exact [[1;2;3]; [4;5;6]; [7;8]; [9;10;11;12]] 8 [] = (Some [[9;10;11;12]], [1;2;3;4;5;6;7;8], Ok tt)
+  /\ msgq_exact [[1;2;3]; [4;5;6]] 5 [] = (Some [], [1;2;3;4;5], Ok tt)
+  /\ msgq_exact [[1;2;3]; []; [4;5;6]] 5 [] = (None, [], Err (VIo EUnexpectedEof))
+  /\ msgq_exact [[1;2;3]] 5 [] = (None, [], Err (VIo EOther)).
+Proof. vm_compute. repeat split. Qed.
+
 Print Assumptions C13_model_ok.
 Print Assumptions C13_adapter_eq_std.
 Print Assumptions C13_adapter_eq_std_histories.
@@ -125,3 +147,4 @@ Print Assumptions C13_exact_ok_iff.
 Print Assumptions C13_never_beyond_buffer.
 Print Assumptions C13_default_read_exact_eq_std.
 Print Assumptions C13_default_write_all_eq_std.
+Print Assumptions C13_msgq_read_exact_pieces.
